@@ -486,3 +486,22 @@ def range_role(iter_repr: str, roles: dict):
         if iter_repr == repr(("call", "builtins.range", (("n", name),), ())):
             return r
     return None
+
+
+def r_hermitian_vars(ctx, f, sk: Skeleton, rule="R-DTYPE", allow_real=()):
+    """Every square matrix variable of a programme whose data are (possibly complex) quantum states is declared Hermitian
+    (picos.HermitianVariable / cvxpy hermitian=True / complex PSD), never real symmetric: a real-symmetric multiplier or
+    measurement operator restricts the feasible set for complex data and the optimum moves."""
+    n = 0
+    for v in sk.vars:
+        sh = v.shape
+        is_matrix = sh is not None and sh[0] == "tuple" and len(sh) == 3
+        if not is_matrix or v.name in allow_real:
+            continue
+        n += 1
+        herm = v.attrs.get("hermitian") == ("c", True) or v.attrs.get("complex") == ("c", True)
+        ctx.ob(rule, f, f"matrix variable `{v.name}` is Hermitian (complex), not real symmetric", bool(herm),
+               f"{v.ctor.split('.')[-1]}{' hermitian=True' if 'cvxpy' in v.ctor else ''}" if herm else
+               f"`{v.name}` is declared {v.ctor.split('.')[-1]} {sorted(k for k in v.attrs if k in ('symmetric', 'PSD', 'psd'))}: real symmetric -- for complex states the "
+               "feasible set shrinks and primal/dual no longer agree", v.node)
+    return n
